@@ -318,4 +318,45 @@ CHECKS = {
             {"name": "escalation", "test": "TestEscalation", "quick": 600, "thorough": 6000, "shards": 8},
         ],
     },
+    "C10": {
+        "pkg": "c10",
+        "level": "exploration",
+        "level_text": ("Generated login dialogues from a grammar (banner lines repaired against the live patterns; user / password / "
+                       "passphrase prompts in the spellings the patterns accept and the orders devices use; 0-3 rejections with or without "
+                       "a message; the 11 recognised ssh client failure lines; MOTD + shell prompt or silence; optional stall after byte k; "
+                       "generated read segmentation) played by a causal device model on a custom transport that requests telnet or ssh "
+                       "in-channel authentication. Oracle derived from the script: outcome class (success / auth error on the third ask / "
+                       "connection error on a failure line / timeout on silence, with the decisive stream offset compared to the stall "
+                       "point), timeout duration on the virtual clock, credential-to-state pairing and the <=2 bound from the device log, "
+                       "transport closed on every failure, and on success the first GetPrompt and the first SendCommand work."),
+        "level_note": "Trusted: the dialogue device model (c10.loginDev), the virtual clock. Banner/MOTD lines never look like a prompt at any prefix (quantifier).",
+        "technique": "property-based testing (rapid) of grammar-generated login dialogues vs a script-derived outcome and credential-state log, virtual time",
+        "rule": ("flavour x rounds x ending x stall x cut plan. Non-trivial: >=1 rejection, or both user and password rounds, or a stall, or an "
+                 "error line. Distinct = sha1(case)."),
+        "assumptions": ["banner and MOTD text does not contain an ssh failure keyword and no line prefix matches a login/prompt pattern"],
+        "subs": [
+            {"name": "login", "test": "TestLogin", "quick": 800, "thorough": 10000, "shards": 16},
+        ],
+    },
+    "C11": {
+        "pkg": "c11",
+        "level": "exploration",
+        "level_text": ("The C10 login dialogues (success, retry, failure, timeout), authenticated privilege escalations against a device "
+                       "that asks / rejects / grants / refuses, and generated platform definitions whose on-open steps write a redacted "
+                       "input, each run with 1-3 loggers at a generated level and a channel log attached; secrets are 4-16 random "
+                       "printable characters incl. format verbs, quotes, backslashes and regex metacharacters behind a unique marker. "
+                       "Invariant: no message handed to any logger and no byte of the channel log contains a secret, raw or Go-quoted; "
+                       "non-vacuity clause: when a secret was transmitted at debug level the same log does contain 'redacted' and the "
+                       "non-secret inputs."),
+        "level_note": "Trusted: the device models do not echo secrets (stated assumption of the property). Quoted forms checked: strconv.Quote and QuoteToASCII.",
+        "technique": "property-based testing (rapid): substring invariant over all log sinks across generated login / escalation / on-open dialogues",
+        "rule": ("login: C10 case x log level x loggers; escalation: behaviour x secret x level x operation; onopen: secret x level x section. "
+                 "Non-trivial: a secret was actually transmitted and the level is debug. Distinct = sha1(case)."),
+        "assumptions": ["the device does not echo secrets"],
+        "subs": [
+            {"name": "login", "test": "TestLoginLogs", "quick": 500, "thorough": 6000, "shards": 16},
+            {"name": "escalation", "test": "TestEscalationLogs", "quick": 400, "thorough": 4000, "shards": 8},
+            {"name": "onopen", "test": "TestOnOpenLogs", "quick": 300, "thorough": 3000, "shards": 4},
+        ],
+    },
 }
